@@ -1,4 +1,4 @@
-CONSTANTS EP = ${EP}  Strategies = {"strict", "optimistic", "discovery"}  Fallbacks = {"compatible_only", "none", "all"}  Spellings = ${Spellings}
+CONSTANTS EP = ${EP}  Strategies = {"strict", "optimistic", "discovery"}  Fallbacks = {"compatible_only", "none", "all"}  CTypes = ${CTypes}  Spellings = ${Spellings}
 INIT Init
 NEXT GenNext
 INVARIANT Export
